@@ -13,7 +13,7 @@ Functions modelled (line numbers of the current tree)
 * `resourcePathList`             `_resource_path_list` (collect names, reverse, extend)               traversal.py:363-369
 * `resourcePathTuple`, `resourcePath`   `resource_path_tuple`, `resource_path` (`_join_path_tuple`)    traversal.py:104-157, 319-360
 * `findResource`                 `find_resource` (`ascii_`, `traverse`, view name ⇒ KeyError)          traversal.py:35-86
-* `resourceURL`                  `ResourceURL.__init__` (physical/virtual path and tuples, trimming)  traversal.py:714-745
+* `resourceURL`                  `ResourceURL.__init__` (physical/virtual path and tuples, trimming)  traversal.py:713-749
 * `joinElements`, `resourceUrl`  `_join_elements`, `Request.resource_url` path assembly (`app_url + virtual_path
                                  + suffix`; query/anchor/app_url overrides are C17's)                  url.py:509-575, 890-893
 * `virtualRoot`                  `virtual_root` (inverse of the trimming, via `find_resource`)         traversal.py:375-417
@@ -65,12 +65,6 @@ def findResource (root : Tree) (start : List Seg) (path : StrOrTuple) : Except E
 
 /-! ### ResourceURL -/
 
-/-- a WSGI string read as text (each byte is the character with that code: latin-1) -/
-def latin1 (b : Bytes) : Text := b.map fun x => Char.ofNat x.toNat
-
-/-- `str.rstrip('/')` -/
-def rstripSlash (t : Text) : Text := (t.reverse.dropWhile (· = '/')).reverse
-
 structure ResUrl where
   physicalPath : Text
   virtualPath : Text
@@ -78,35 +72,45 @@ structure ResUrl where
   virtualPathTuple : List Seg
 deriving Repr, DecidableEq
 
-/-- `ResourceURL(resource, request)`; `vrootHdr` = `environ.get('HTTP_X_VHM_ROOT')` -/
-def resourceURL (p : List Seg) (vrootHdr : Option Bytes) : ResUrl :=
+/-- `ResourceURL(resource, request)`; `vrootHdr` = `environ.get('HTTP_X_VHM_ROOT')` (a WSGI string).  The header is
+read the way the traverser reads it — `decode_path_info` (a header that is not UTF-8 raises `UnicodeDecodeError`),
+`split_path_info` — and compared with the physical path tuple segment by segment. -/
+def resourceURL (p : List Seg) (vrootHdr : Option Bytes) : Except Err ResUrl :=
   let ppt0 := resourcePathTuple p []
   let pp0 := joinPathTuple ppt0
   let ppt := if ppt0 ≠ [[]] then ppt0 ++ [[]] else ppt0
   let pp := if ppt0 ≠ [[]] then pp0 ++ ['/'] else pp0
   let plain : ResUrl := { physicalPath := pp, virtualPath := pp, physicalPathTuple := ppt, virtualPathTuple := ppt }
   match vrootHdr with
-  | none => plain
+  | none => .ok plain
   | some h =>
-    let v := rstripSlash (latin1 h)
-    if v ≠ [] ∧ (v ++ ['/']).isPrefixOf pp = true then
-      let numels := (splitOn '/' v).length
-      { plain with virtualPathTuple := [] :: ppt.drop numels, virtualPath := pp.drop v.length }
-    else plain
+    match decodePathInfo h with
+    | none => .error .unicodeDecode
+    | some v =>
+      let vrootPathTuple : List Seg := [] :: splitPathInfo v
+      let numels := vrootPathTuple.length
+      if numels > 1 ∧ ppt.take numels = vrootPathTuple then
+        let vpt : List Seg := [] :: ppt.drop numels
+        .ok { plain with virtualPathTuple := vpt, virtualPath := joinPathTuple vpt }
+      else .ok plain
 
 /-- `_join_elements(elements)` -/
 def joinElements (els : List Seg) : Text := joinWith '/' (els.map quoteSegment)
 
 /-- the path part of `Request.resource_url(resource, *elements)`: `app_url + virtual_path + suffix` -/
-def resourceUrl (appUrl : Text) (p : List Seg) (vrootHdr : Option Bytes) (els : List Seg) : Text :=
-  appUrl ++ (resourceURL p vrootHdr).virtualPath ++ (if els = [] then [] else joinElements els)
+def resourceUrl (appUrl : Text) (p : List Seg) (vrootHdr : Option Bytes) (els : List Seg) : Except Err Text :=
+  match resourceURL p vrootHdr with
+  | .error e => .error e
+  | .ok u => .ok (appUrl ++ u.virtualPath ++ (if els = [] then [] else joinElements els))
 
 /-- `virtual_root(resource, request)` (the `request.root` / `find_root` fallback is the root = `[]`) -/
 def virtualRoot (root : Tree) (p : List Seg) (vrootHdr : Option Bytes) : Except Err (List Seg) :=
-  let u := resourceURL p vrootHdr
-  if u.physicalPath ≠ u.virtualPath ∧ u.virtualPath.isSuffixOf u.physicalPath = true then
-    findResource root p (.str (u.physicalPath.take (u.physicalPath.length - u.virtualPath.length)))
-  else .ok []
+  match resourceURL p vrootHdr with
+  | .error e => .error e
+  | .ok u =>
+    if u.physicalPath ≠ u.virtualPath ∧ u.virtualPath.isSuffixOf u.physicalPath = true then
+      findResource root p (.str (u.physicalPath.take (u.physicalPath.length - u.virtualPath.length)))
+    else .ok []
 
 /-! ### requesting a generated URL -/
 
